@@ -85,6 +85,11 @@ func writeEvidence(prop, tier string, seed uint64, m *WorkerResult, distinct, pl
 		"violations":  violations,
 	}
 	dir := filepath.Join(verifDir(), "evidence")
+	if r := os.Getenv("VERIF_REPO"); r != "" && r != "/repo" {
+		// a run against a scratch copy with a seeded change says nothing about the repository: keep its
+		// evidence apart from the files the registered checks write
+		dir = filepath.Join(os.TempDir(), "gfsim-evidence-other-tree")
+	}
 	os.MkdirAll(dir, 0755)
 	b, _ := json.MarshalIndent(ev, "", " ")
 	os.WriteFile(filepath.Join(dir, baseProp(prop)+".json"), b, 0644)
